@@ -3,6 +3,7 @@
 in seeded/results.json (used to fill each seed's meta.json and the DESIGN.md table)."""
 import json, os, subprocess, sys, time
 V = "/verif"
+os.environ["VERIF_EVIDENCE_DIR"] = "/tmp/verif_seed_evidence"
 PROP = {"D1-revert": "C17", "D12-revert": "C10", "D17-revert": "C14", "D2-revert": "C14", "D3evict-revert": "C10",
         "D3hang-revert": "C10", "D4-revert": "C11", "D5-revert": "C13", "D6-revert": "C15", "D7-revert": "C18",
         "D8a-revert": "C19", "D9-revert": "C07", "D19-revert": "C20", "D10-revert": "C20", "D20-revert": "C20",
